@@ -18,6 +18,7 @@ import GruleModel.Properties.TableTie
 import GruleModel.Properties.SyntaxTie
 import GruleModel.Proofs.RealLiterals
 import GruleModel.Proofs.LexFacts
+import GruleModel.Proofs.ParseRange
 namespace Grule.C05
 open Grule Grule.Expected Grule.Syntax
 
@@ -257,6 +258,12 @@ theorem C05_parse_print_real (ot : BinOp → List Char) (e : Expr) (hw : ParseAt
     parseExpr realDec (f + 1) p (ParseAtoms.fE RealLiterals.canonTok ot e ++ ts) = .ok (e, ts) :=
   ParseAtoms.parse_print realDec RealLiterals.canonTok ot RealLiterals.Covered RealLiterals.real_ok e hw p f ts hp hf hs hfollow
 
+/-- the converse: whatever the parser returns is well grouped — no text is read as a tree that violates the precedence
+    table or left associativity (`Proofs/ParseRange.lean`) -/
+theorem C05_parse_range (d : Dec) (f p : Nat) (ts : List Token) (e : Expr) (rest : List Token)
+    (h : parseExpr d f p ts = .ok (e, rest)) (hp : p ≤ 6) : ParseGroup.WG e ∧ p ≤ ParseGroup.level e :=
+  ⟨ParseAtoms.WG_of_WFE ParseRange.Any e (ParseRange.parse_range d f p ts e rest h hp).1, (ParseRange.parse_range d f p ts e rest h hp).2.1⟩
+
 /-- `a ∘ b ∘' c` without parentheses: read as `(a ∘ b) ∘' c` exactly when `∘'` does not bind tighter than `∘` (left
     associativity at equal strength), as `a ∘ (b ∘' c)` when it does — the two trees have the same tokens, and only the one
     that is well grouped is what the parser returns -/
@@ -290,6 +297,7 @@ theorem C05_leading_whitespace (ws cs : List Char) (h : ∀ c ∈ ws, isWs c = t
 #print axioms C05_precedence_tied
 #print axioms C05_parse_print
 #print axioms C05_parse_print_real
+#print axioms C05_parse_range
 #print axioms Grule.RealLiterals.real_ok
 #print axioms C05_leading_whitespace
 #print axioms C05_three_operands
